@@ -227,9 +227,8 @@ def judge_frame(dlf, fo, user, indexed):
             if not ok:
                 out.append(('spacing-value', tag, f"SPACING = {spacing!r}, consecutive differences are {D[:6]}"))
     else:
-        if uniform and not (all_equal and D[0] == 0 and False):
-            out.append(('spacing-missing-for-uniform-index', tag, f"differences {D[:6]} are uniform, SPACING absent"))
-        elif 'direction' not in user:
+        # SPACING absent (the statement only says when it may be present): then DIRECTION must carry the monotonic sense
+        if 'direction' not in user:
             if mono_inc and direction != 'INCREASING':
                 out.append(('direction-wrong', tag, f"index is increasing, DIRECTION = {direction!r}"))
             elif mono_dec and direction != 'DECREASING':
